@@ -272,6 +272,25 @@ func TestGenerated(t *testing.T) {
 	rt.Check(t, 20000, 8000000, func(t *rapid.T) {
 		base := genBase().Draw(t, "base")
 		u := genURL().Draw(t, "url")
+		// the result is a function of the two strings: not of the home directory, the working directory or the shell
+		if rapid.IntRange(0, 3).Draw(t, "changeEnvironment") == 0 {
+			k := rapid.SampledFrom([]string{"HOME", "HOME", "PWD", "SHELL", "TMPDIR"}).Draw(t, "envName")
+			v := rapid.SampledFrom([]string{"", "/", "/nonexistent", "/root", "relative/dir", "/srv/data/../.."}).Draw(t, "envValue")
+			old, had := os.LookupEnv(k)
+			if rapid.Bool().Draw(t, "unset") {
+				os.Unsetenv(k)
+			} else {
+				os.Setenv(k, v)
+			}
+			defer func() {
+				if had {
+					os.Setenv(k, old)
+				} else {
+					os.Unsetenv(k)
+				}
+			}()
+			ev.Label("env:" + k + "_changed")
+		}
 		if msg := check(base, u); msg != "" {
 			t.Fatalf("%s", msg)
 		}
